@@ -44,7 +44,7 @@ Inductive ph5 :=
 
 Definition step5 (q : ph5) (a : action) : option ph5 :=
   match a with
-  | AClock _ | ATimer _ | AStore _ _ | AMetric _ | AReply _ _ => Some q
+  | AClock _ | ATimer _ | AStore _ _ | AMetric _ | AReply _ _ | ARequest _ _ => Some q
   | AEvent ev =>
       match ev with
       | EvState (CheckingForUpdates s) =>
@@ -130,6 +130,7 @@ Definition store_op_eqb (a b : store_op) : bool :=
   end.
 
 Definition step7 (q : q7) (a : action) : option q7 :=
+  match a with ARequest _ _ | AReply _ _ => Some q | _ =>
   match todo7 q with
   | o :: rest =>
       let q' := {| cup7 := cup7 q; p7 := p7 q; todo7 := rest |} in
@@ -152,7 +153,7 @@ Definition step7 (q : q7) (a : action) : option q7 :=
           if oZ_eqb (ps_poll ps) (p7 q) then Some q else None
       | _ => Some q
       end
-  end.
+  end end.
 
 Definition init7 (cup : option N) (st : storage) : q7 :=
   {| cup7 := match cup with Some _ => true | None => false end;
@@ -357,3 +358,75 @@ Definition step3 (q : q3) (a : action) : option q3 :=
       end
   | _ => Some q
   end.
+
+(* ------------------------------------------------------------------ C11 *)
+(* Every start-update-check request gets exactly one reply, and the reply is truthful. *)
+Inductive ph11 := P11Wait | P11Check | P11Reboot.
+Record q11 := {
+  out11 : list (N * isource);          (* sent, not yet answered; oldest first *)
+  done11 : list N;                     (* answered *)
+  ph11_ : ph11;
+  starter11 : option (isource * bool); (* the latest check-allowed question: (source asked with, positive?) if not yet consumed by a reply *)
+  src11 : isource;                     (* source of the current check's options *)
+  upg11 : bool;                        (* an on-demand request was answered AlreadyRunning during this check / reboot wait *)
+  must_reboot11 : bool                 (* the policy has just allowed the reboot: the next installer action is the reboot *) }.
+Definition q11_upd (q : q11) out dn ph st src upg mr : q11 :=
+  {| out11 := out; done11 := dn; ph11_ := ph; starter11 := st; src11 := src; upg11 := upg; must_reboot11 := mr |}.
+Definition positive (d : decision) : bool := match d with DOk _ | DOkDeferred _ => true | _ => false end.
+
+Definition step11 (q : q11) (a : action) : option q11 :=
+  match a with
+  | ARequest id src =>
+      if existsb (fun x => N.eqb (fst x) id) (out11 q) || existsb (N.eqb id) (done11 q) then None
+      else Some (q11_upd q (out11 q ++ [(id, src)]) (done11 q) (ph11_ q) (starter11 q) (src11 q) (upg11 q) (must_reboot11 q))
+  | AReply id r =>
+      match find (fun x => N.eqb (fst x) id) (out11 q) with
+      | None => None                                               (* a reply nobody asked for, or a second reply *)
+      | Some (_, src) =>
+          let out' := filter (fun x => negb (N.eqb (fst x) id)) (out11 q) in
+          let dn' := id :: done11 q in
+          match r with
+          | Started =>
+              match starter11 q, out11 q with
+              | Some (s, true), (id0, _) :: _ =>
+                  if N.eqb id0 id && isource_eqb s src then Some (q11_upd q out' dn' (ph11_ q) None (src11 q) (upg11 q) (must_reboot11 q)) else None
+              | _, _ => None
+              end
+          | Throttled =>
+              match starter11 q, out11 q with
+              | Some (s, false), (id0, _) :: _ =>
+                  if N.eqb id0 id && isource_eqb s src then Some (q11_upd q out' dn' (ph11_ q) None (src11 q) (upg11 q) (must_reboot11 q)) else None
+              | _, _ => None
+              end
+          | AlreadyRunning =>
+              match ph11_ q with
+              | P11Wait => None
+              | _ => Some (q11_upd q out' dn' (ph11_ q) (starter11 q) (src11 q) (upg11 q || is_ondemand src) (must_reboot11 q))
+              end
+          end
+      end
+  | APolicy (QCheckAllowed _ _ _ src) (PDecision d) =>
+      match ph11_ q with
+      | P11Wait => Some (q11_upd q (out11 q) (done11 q) (if positive d then P11Check else P11Wait) (Some (src, positive d)) src false false)
+      | _ => None
+      end
+  | APolicy (QRebootAllowed src) (PBool b) =>
+      (* replies are observed at the end of a poll, so an on-demand request that has been sent but whose
+         AlreadyRunning reply is not yet visible may already have upgraded the question *)
+      let pending_od := existsb (fun x => is_ondemand (snd x)) (out11 q) in
+      if isource_eqb src (if upg11 q then OnDemand else src11 q) || (is_ondemand src && pending_od)
+      then Some (q11_upd q (out11 q) (done11 q) (ph11_ q) (starter11 q) (src11 q) (upg11 q || (is_ondemand src && pending_od)) b) else None
+  | AInstaller IReboot _ => if must_reboot11 q then Some (q11_upd q (out11 q) (done11 q) (ph11_ q) (starter11 q) (src11 q) (upg11 q) false) else None
+  | AEvent (EvState WaitingForReboot) => Some (q11_upd q (out11 q) (done11 q) P11Reboot None (src11 q) (upg11 q) false)
+  | AEvent (EvState Idle) => Some (q11_upd q (out11 q) (done11 q) P11Wait None (src11 q) false false)
+  | AEvent (EvState (CheckingForUpdates _)) =>
+      (* a request that started this check must have been told so before the check announces itself *)
+      match starter11 q with
+      | Some (_, true) => match out11 q with [] => Some (q11_upd q (out11 q) (done11 q) P11Check None (src11 q) (upg11 q) false) | _ => Some q end
+      | _ => Some q
+      end
+  | AHttp _ _ | ATimer _ | APolicy (QNextTime _ _ _) _ => if must_reboot11 q then None else Some q
+  | _ => Some q
+  end.
+Definition init11 : q11 :=
+  {| out11 := []; done11 := []; ph11_ := P11Wait; starter11 := None; src11 := ScheduledTask; upg11 := false; must_reboot11 := false |}.
